@@ -30,7 +30,7 @@ pub fn check() -> Check {
         floor_quick: 2_000,
         floor_thorough: 20_000,
         rule: "Random sessions as in C01/C06/C13 (typing, editing, recall, completion, Enter with handler output, help, parse errors of derived commands, Cli::write, set_prompt, construction through the builder and through Cli::new) on a recording sink that counts bytes written since the last flush, with short writes on and off. \
-               After every API call that returns Ok the counter must be 0. Non-trivial = the call produced at least two sink writes; distinct by (kind of call, bytes written).",
+               After every API call that returns Ok the counter must be 0. Non-trivial = the call produced at least two sink writes; distinct by (kind of call, bytes written). Evaluations count every API call (input byte, application write, prompt change) that was followed by the oracle, plus one per session; a coverage-guided campaign (libFuzzer + ASan, 16 processes, same oracle inside the target) searches the same session space and what it keeps is re-run and classified here.",
         assumptions: &["the sink never returns Ok(0) for a non-empty buffer (that would violate the embedded_io::Write contract)"],
         ..DEFAULT
     }
